@@ -34,7 +34,7 @@ EPS = 2.220446049250313e-16
 def plan(tier, seed):
     specs = [{'name': 'shipped-' + c, 'mode': 'curve', 'curve': c, 'n_params': 2000 if tier == 'quick' else 40000}
              for c in SHIPPED]
-    n = 8 if tier == 'quick' else 32
+    n = 8 if tier == 'quick' else 128
     for k in range(n):
         specs.append({'name': 'poly-%d' % k, 'mode': 'poly', 'rseed': seed * 3571 + k, 'n_poly': 12 if tier == 'quick' else 40,
                       'n_params': 300})
